@@ -664,7 +664,17 @@ package uhppote
 
 //@ func (*uhppote).listen
 //@   params u, p, q, listener
+//@   returns err
 //@   requires client: u != nil && u.driver != nil && listener != nil
+//@   modifies evt.connected
+//@   ensures connected: err == nil ==> evt.connected == old(evt.connected) + 1 && evt.errors == old(evt.errors) && evt.events == old(evt.events)
+//@   ensures failed:    err != nil ==> evt.connected == old(evt.connected)
+
+// the driver's Listen: starts the receive loop (a goroutine: outside the sequential subset) and returns
+//@ func driver.Listen
+//@   params signal, done, handler
+//@   returns err
+//@   ensures nothing: true
 
 // ---- C17: the client keeps its own copy of the configuration ----------------------------------
 
@@ -779,3 +789,42 @@ package uhppote
 //@   ensures noreply:  err == nil && request[1] == 150 ==> res == nil && sock.reads == old(sock.reads)
 //@   ensures reply:    err == nil && request[1] != 150 ==> res != nil && sock.reads == old(sock.reads) + 1
 //@   ensures failed:   err != nil ==> res == nil
+
+// ---- C10: the event listener, per datagram ------------------------------------------------------
+// Ghost counters evt.errors / evt.events / evt.connected count the Listener callbacks (/verif/spec/listen.spec);
+// chansends() is the number of sends on the event pipe executed by the function, chansent(0) the value sent.
+
+//@ func Listener.OnError
+//@   params err
+//@   returns ok
+//@   modifies evt.errors
+//@   ensures event: evt.errors == old(evt.errors) + 1
+
+//@ func Listener.OnEvent
+//@   params status
+//@   modifies evt.events
+//@   ensures event: evt.events == old(evt.events) + 1
+
+//@ func Listener.OnConnected
+//@   modifies evt.connected
+//@   ensures event: evt.connected == old(evt.connected) + 1
+
+// the receive handler: every datagram produces exactly one of - one event on the pipe (a well-formed event:
+// 64 bytes, protocol id 0x17 or the v6.62 0x19, function code 0x20, non-zero serial number, fields in domain),
+// decoded from that datagram into storage of its own - or exactly one error callback
+//@ func (*uhppote).listen$1
+//@   params bytes
+//@   requires listener: listener != nil
+//@   modifies evt.errors
+//@   attr opaque = bcd.
+//@   attr noaxioms = time.
+//@   define B = row(bytes)
+//@   define E = chansent(0)
+//@   ensures one:     (evt.errors - old(evt.errors)) + chansends() == 1 && evt.events == old(evt.events) && evt.connected == old(evt.connected)
+//@   ensures reject:  len(bytes) != 64 || wire.u32(B, 4) == 0 || !(B[0] == 23 || B[0] == 25) || B[1] != 32 || B[13] > 1 ==> chansends() == 0
+//@   ensures event:   chansends() == 1 ==> len(bytes) == 64 && (B[0] == 23 || B[0] == 25) && B[1] == 32 && wire.u32(B, 4) != 0 && E != nil && fresh(E) &&
+//@                      E.SerialNumber == wire.u32(B, 4) && E.EventIndex == wire.u32(B, 8) && E.EventType == B[12] && (E.Granted <==> B[13] == 1) && E.Door == B[14] &&
+//@                      E.Direction == B[15] && E.CardNumber == wire.u32(B, 16) && wire.rdatetime(B, 20, E.Timestamp.abs, E.Timestamp.ns, E.Timestamp.loc) && E.Reason == B[27] &&
+//@                      (E.Door1State <==> B[28] == 1) && (E.Door2State <==> B[29] == 1) && (E.Door3State <==> B[30] == 1) && (E.Door4State <==> B[31] == 1) &&
+//@                      (E.Door1Button <==> B[32] == 1) && (E.Door2Button <==> B[33] == 1) && (E.Door3Button <==> B[34] == 1) && (E.Door4Button <==> B[35] == 1) &&
+//@                      E.SystemError == B[36] && E.SequenceId == wire.u32(B, 40) && E.SpecialInfo == B[48] && E.RelayState == B[49] && E.InputState == B[50]
